@@ -36,11 +36,25 @@ type pkgInfo struct {
 	pkg   *types.Package
 }
 
-type fakeImporter struct{ cache map[string]*types.Package }
+type fakeImporter struct {
+	cache map[string]*types.Package
+	repo  string
+}
+
+const modPath = "github.com/arloliu/go-secs/v2/"
 
 func (f *fakeImporter) Import(path string) (*types.Package, error) {
 	if p, ok := f.cache[path]; ok {
 		return p, nil
+	}
+	// packages of the repository itself are type-checked from the working tree, so that
+	// cross-package constants (hsms.maxHSMSMsgLen = secs2.MaxByteSize) resolve
+	if strings.HasPrefix(path, modPath) && f.repo != "" {
+		f.cache[path] = types.NewPackage(path, path[strings.LastIndex(path, "/")+1:]) // cycle guard
+		if pi, err := loadPkg(f.repo, strings.TrimPrefix(path, modPath)); err == nil && pi.pkg != nil {
+			f.cache[path] = pi.pkg
+			return pi.pkg, nil
+		}
 	}
 	// std packages: try the real importer first (gives time.Duration etc.), fall back to an empty package.
 	if !strings.Contains(path, ".") {
@@ -729,6 +743,7 @@ func main() {
 	if err := os.MkdirAll(*out, 0o755); err != nil {
 		panic(err)
 	}
+	imp.repo = *repo
 	status := map[string]string{}
 	pkgs := map[string]*pkgInfo{}
 	for _, rel := range []string{"secs2", "hsms", "hsmsss", "secs1", "sml", "internal/wire"} {
